@@ -262,10 +262,13 @@ theorem allAlways (p : Nat) : ∀ f, AllAlways p f := by
       refine Always.bind (al_pendLOS _) fun ls => ?_
       split
       · exact .ret
-      · refine Always.bind (ih.lookup t true) fun oe => ?_
+      · refine Always.bindE (ih.lookup t true) fun r => ?_
+        unfold riAfterLookup
         split
+        · simp only [bind_eq]; exact Always.bind (al_pendStore _ _) fun _ => .ret
         · exact .ret
-        · refine Always.bind (al_riMark _ _) fun _ => ?_
+        · simp only [bind_eq]
+          refine Always.bind (al_riMark _ _) fun _ => ?_
           exact Always.bindE (al_riBody _ _ _) fun _ => al_riFinish _ _
 
 theorem al_auth (p f r : Nat) : Always (Op.keepsGone p) (auth f r) := by
